@@ -26,7 +26,10 @@ MANIFEST = {
              "peer holding the keys that sends unpadded challenges). Tied to the code by the trace monitor Sys/MonC15.v that "
              "replays the model against the probes of real endpoints in the simulator on every run (client address changes, "
              "spoofed and own-address replays, loss, reordering, silent clients) with an independent byte ledger. NOT proved, only "
-             "observed on the sampled schedules: the server follows a client that keeps sending from the new address."),
+             "observed on the sampled schedules: the server follows a client that keeps sending from the new address. Two defects were "
+             "found by the monitor and repaired in the code (corpus/sim_c15): handle_coalesced credited coalesced bytes from ANY "
+             "address to the unvalidated path's budget (coalesced_credit_refuted / coalesced_credit_fixed), and migrate() left the "
+             "previous path's loss-detection timer armed (debug assertion failure in pto_time_and_space)."),
     "note": ("Trusted: Coq kernel + vm_compute; the hand-written model, whose agreement with connection/mod.rs is checked on sampled "
              "traces only (no component-level hook: a Connection needs a crypto session); simulator, probe hook, extraction "
              "(ExtrOcamlBasic) and the OCaml driver; python generator. Packet numbers are not in the trace: the monitor checks "
